@@ -582,12 +582,10 @@ def readInts (s : String) : List Int :=
       | none => []
   go (splitWs s.toList [])
 
-/-- `load_input_files`; `none` = `exit(-1)` -/
-def readTriple (f : Files) : Option Ssm.Triple :=
-  let st := readTemplate f.st
-  let wc0 := readInts f.wc
+/-- `load_input_files` after the three files have been scanned; `none` = `exit(-1)` -/
+def reconcile (st : List Char) (wc0 : List Int) (eqRead : List Int) : Option Ssm.Triple :=
   if wc0.any (fun v => v == 0 || v < -1) then none else
-  let eq0 := stripTrailing (· == (0 : Int)) (readInts f.eq)
+  let eq0 := stripTrailing (· == (0 : Int)) eqRead
   if eq0.any (· < 0) then none else
   let m := max eq0.length st.length
   -- wc longer than everything else: only trailing -1 may be dropped
@@ -604,6 +602,10 @@ def readTriple (f : Files) : Option Ssm.Triple :=
     some { st := (List.range n).map (fun i => if blank i then ' ' else st.getD i ' ')
            eq := (List.range n).map (fun i => if blank i then 0 else (eq0.getD i 0).toNat)
            wc := (List.range n).map (fun i => if blank i then -1 else wc1.getD i (-1)) }
+
+/-- `load_input_files`; `none` = `exit(-1)` -/
+def readTriple (f : Files) : Option Ssm.Triple :=
+  reconcile (readTemplate f.st) (readInts f.wc) (readInts f.eq)
 
 /-! ## the contract -/
 
